@@ -372,7 +372,7 @@ func init() {
 		ID: "C15", Level: "fault_enumeration",
 		Rule:      "every fault script (thorough: EVERY main-file script of <=3 answers over the 9 answers x every notebook script of <=2 answers over 7, with BaseDelay {0,100ms} x BackoffFactor {1,2,1e6}; quick as follows): main file answers per attempt in {9 stationary answers: ok, ok-empty-list, zero-bytes, ENOENT, EACCES, EISDIR, EIO, malformed, wrong-shape} + {one or two transient faults (EIO, malformed, ENOENT, EACCES, EISDIR) then ok} + {EIO then ENOENT, EIO EIO then EACCES} x personal file {absent, ok, ok-empty, malformed, EACCES, EIO, wrong-shape, EIO then ok, malformed then absent, EIO then EACCES} x backup {absent, ok, malformed, empty list, zero bytes} x retry configuration MaxAttempts {-1,0,1,2,3,5} x BaseDelay {0,1ms,100ms} x BackoffFactor {1,2,10,1e6} x MaxDelay {0,150ms,5s}, each through the real LoadDatabaseWithFallback with answers injected at the file-read seam (vos), attempts counted there and sleeps virtual (vtime). Oracle: non-nil searchable database and nil error always; the real database (main then notebook entries) when the first answers load; never a half-loaded mix; missing / permission-denied tried exactly once; attempts <= max(1, MaxAttempts); waits <= attempts-1, non-decreasing, <= MaxDelay. non-trivial = scripts with more than one attempt",
 		Assume:    []string{"faults are injected at os.ReadFile / os.Stat of the three paths (vos seam); other file-system calls are not on this path", "BackoffFactor < 1 is outside the checked domain", "the backup rung is unreachable in the current ladder (the built-in list never fails and comes first); it is enumerated but never answers", "whether a transient fault is retried at all is not demanded (only 'at most')"},
-		QuickSecs: 100, ThorSecs: 600,
+		QuickSecs: 100, ThorSecs: 1500,
 		Run: c15Run,
 		Replay: func(c *lib.Ctx, raw json.RawMessage) []lib.Violation {
 			var cs c15Case
